@@ -273,7 +273,7 @@ def run(ctx) -> None:
                "with __cause__ set (PEP 479 / 525) — used to mark cells infeasible")
     ctx.tables["infeasible cells"] = INFEASIBLE
     ctx.tables["outcome legend"] = MEANING
-    u = ctx.unit("contextlib._AsyncGeneratorContextManager.__aexit__")
+    u = ctx.inlined(ctx.unit("contextlib._AsyncGeneratorContextManager.__aexit__"))  # the cases may live in private methods
     cfg = cfg_of(u)
     params = u.param_names()
     if len(params) != 4:
@@ -333,7 +333,7 @@ def _decider(oc) -> str:
 
 
 def r13_3(ctx) -> None:
-    u = ctx.unit("contextlib._AsyncGeneratorContextManager.__aenter__")
+    u = ctx.inlined(ctx.unit("contextlib._AsyncGeneratorContextManager.__aenter__"))
     cfg = cfg_of(u)
     params = u.param_names()
     spec = {("yield",): "RETURN_YIELDED", ("stop",): "RT", ("new", "OtherExc", None): "PROP"}
